@@ -415,6 +415,9 @@ func gen(r *vh.Rand, tier string) []string {
 	for i := 0; i < 160*mul; i++ {
 		out = append(out, genPathCase(r))
 	}
+	for i := 0; i < 150*mul; i++ {
+		out = append(out, genTmplCase(r))
+	}
 	for i := 0; i < 6*mul; i++ {
 		rounds := 10000 // start-up rounds per case; a racy first call shows within ~5 (16 cores) to ~300 (2 cores) rounds
 		if tier == "thorough" {
